@@ -67,7 +67,7 @@ def configurations(repo: Repo, func: FuncInfo, tier="quick", modes=("vac", "T", 
     progs = ("none", "notnone") if has_prog else ("none",)
     nonideal = is_non_ideal(repo, func)
     inits = ("none", "notnone") if nonideal and "initial_permeances" in func.params else (None,)
-    unit_sets = [(KG, KG)]
+    unit_sets = [(KG, KG), ("SI", "GPU")]
     if tier == "thorough":
         unit_sets = list(itertools.product(UNITS, UNITS))
     for basis, mode, prog, init in itertools.product(bases, modes, progs, inits):
@@ -88,14 +88,13 @@ def configurations(repo: Repo, func: FuncInfo, tier="quick", modes=("vac", "T", 
                 if us is not None:
                     facts["initial_permeances[0].units"] = ("str", us[0])
                     facts["initial_permeances[1].units"] = ("str", us[1])
-                    if tier == "thorough":
-                        label += " units=%s/%s" % us
+                    label += " units=%s/%s" % us
             if nonideal:
                 # the n/m order parameters are Optional[int]; leave them opaque but non-None irrelevant
                 for p in func.params:
                     if p.startswith(("n_", "m_")):
                         facts[p] = "notnone"
-            yield label, facts, {"basis": basis, "mode": mode, "programme": prog, "initial_permeances": init}
+            yield label, facts, {"basis": basis, "mode": mode, "programme": prog, "initial_permeances": init, "units": us}
 
 
 def make_config(facts, extra_inline=(), ret_summary=None, canon_arg=None) -> Config:
